@@ -37,10 +37,14 @@ Section Interp.
             try_ (crun c) (fun r =>
               match r with
               | Err XFuel => throw XFuel
-              | Err e =>
-                  (* a cleanup that ran out of data and is followed by more work: replay-unfaithful *)
-                  _ <- (match e with XInvalid m => if internal_msg m then mark_dirty else ret tt | _ => ret tt end) ;;
-                  cleanup_loop f (Some e)
+              | Err (XInvalid m) =>
+                  (* a skip requested by a cleanup function is honoured when the test case ends; it never replaces a
+                     failure in flight (runCleanup).  A cleanup that ran out of data and is followed by more work:
+                     replay-unfaithful *)
+                  _ <- (if internal_msg m then mark_dirty else ret tt) ;;
+                  _ <- note_skip m ;;
+                  cleanup_loop f last
+              | Err e => cleanup_loop f (Some e)
               | Ok _ => cleanup_loop f last
               end)
         end
